@@ -465,6 +465,9 @@ struct BindMachine : Machine {
     int flags = (int)(uint32_t)o.u("fl"); bool is_set = ep_takes_set(ep);
     GenSet g; if (is_set) g = make_set(R, false, (unsigned)o.u("cls"), o.u("ss"));
     hwloc_bitmap_t out = hwloc_bitmap_alloc();
+    // the result bitmap of a get-call is the caller's and need not be empty: half of the time it holds leftovers (a few low bits and one far above
+    // the machine) that the call must overwrite, not merge with
+    if (!is_set && (o.u("fl") >> 9 & 1) == ((o.u("who") >> 1) & 1)) { hwloc_bitmap_set(out, 1); hwloc_bitmap_set(out, 3); hwloc_bitmap_set(out, 2500); }
     struct F { hwloc_bitmap_t a, b; ~F() { if (a) hwloc_bitmap_free(a); hwloc_bitmap_free(b); } } fr{g.bm, out};
     int who = (int)(o.u("who") % 2);
     pid_t pid = who ? 0 : getpid(); pthread_t th = who ? g_helper.th : pthread_self();
@@ -516,6 +519,18 @@ struct BindMachine : Machine {
       if (last) { Set expect; unsigned top = *R.complete.rbegin(); for (unsigned x : last->set) if (x <= top) expect.insert(x);
         if (got != expect) r.fail0("bind.thread_binding_reported", "%s(%s) returned {%s}; the kernel answered {%s} for that thread (complete cpuset ends at %u)", EPN[ep], args, sstr(got).c_str(), sstr(last->set).c_str(), top);
         r.count("probe.thread_binding_read_checked"); }
+    }
+    // process-wide reads without STRICT: the union of what the kernel answered for each thread of the process (cut at the last CPU of the complete
+    // cpuset), nothing else - whatever the result bitmap held before
+    if (!is_set && rc == 0 && !(flags & HWLOC_CPUBIND_STRICT) && ((ep == GET_CPUBIND && !T) || ep == GET_PROC_CPUBIND) && !R.complete.empty()) {
+      Set expect; unsigned top = *R.complete.rbegin(); unsigned n = 0; for (auto &c : cs) if ((c.kind == kmodel::GETAFF || c.kind == kmodel::PGETAFF) && c.ret == 0) { n++; for (unsigned x : c.set) if (x <= top) expect.insert(x); }
+      if (n) { if (got != expect) r.fail0("bind.process_binding_reported", "%s(%s) returned {%s}; the union of what the kernel answered for the %u threads is {%s}", EPN[ep], args, sstr(got).c_str(), n, sstr(expect).c_str()); r.count("probe.process_binding_read_checked"); }
+    }
+    // last CPU location: exactly the CPUs the kernel named for the thread(s) asked about (sched_getcpu, or the processor field of /proc/<tid>/stat -
+    // whose command-name field may itself contain blanks and parentheses)
+    if (!is_set && rc == 0 && (ep == GET_LAST_CPU || ep == GET_PROC_LAST_CPU)) {
+      Set expect; unsigned n = 0; for (auto &c : cs) if ((c.kind == kmodel::GETCPU && c.ret >= 0) || (c.kind == kmodel::FILE_READ && c.file.find("/stat") != std::string::npos && c.err == 0)) { n++; for (unsigned x : c.set) expect.insert(x); }
+      if (n) { if (got != expect) r.fail0("bind.last_cpu_location_reported", "%s(%s) returned {%s}; the kernel named {%s}", EPN[ep], args, sstr(got).c_str(), sstr(expect).c_str()); r.count("probe.last_cpu_location_checked"); }
     }
     if (!is_set) return;
     // (2)
